@@ -127,6 +127,7 @@ class C11(Check):
     SMALL_OPS = [
         ['A', '/a', ['GET'], None, False], ['A', '/ab', ['GET'], 'n1', False], ['A', '/abc', ['GET'], 'n2', False],
         ['A', '/a/<x>', ['GET'], 'n1', False], ['A', '/ab/<y>', ['POST'], None, True], ['A', '/a/<x>/d', ['GET'], None, False],
+        ['A', '/ab', ['POST'], 'n2', False],
         ['X', '/a'], ['X', '/ab'], ['X', '/abc'], ['X', '/a/<x>'], ['X', '/a*'], ['X', '/ab*'], ['X', '/abc*'],
         ['XN', 'n1'], ['XN', 'n2'],
         ['H', '/a', False], ['H', '/ab', False], ['H', '/a/', True], ['H', '/a/b', False], ['XH', '/a'], ['XH', '/ab'],
